@@ -156,7 +156,7 @@ def run_check(P, pid, tier, seed, t0, a):
         for f in tres["failed"]:
             notes.append(f"trace obligation failed: {f}")
         log(f"[{pid}] T: {tres['obligations']} kernels traced from the source ({tres['nodes']} nodes), "
-            f"{tres['discharged']} obligations re-checked, {len(tres['failed'])} failed")
+            f"{tres['discharged']} obligations re-checked, {tres.get('e2e_theorems', 0)} end-to-end theorems, {len(tres['failed'])} failed")
 
     # ---------------------------------------------------------------- D
     cases = corpus_cases(pid)
@@ -474,6 +474,7 @@ def write_evidence(P, pid, tier, seed, t0, thms, dres, ores, tres, nviol, notes,
                                  "exhaustive": inv["error"] is None and not inv["added"] and not inv["removed"]}
     if tres:
         cov["trace"] = {k: tres[k] for k in ("obligations", "discharged", "kernels", "failed")}
+        cov["trace"]["end_to_end_theorems"] = tres.get("e2e_theorems", 0)
     ev = {
         "property_id": pid, "tier": tier, "seed": seed, "level": "proof", "coverage": cov,
         "assumptions": [
